@@ -4,6 +4,7 @@ package updates
 
 import (
 	"context"
+	"errors"
 
 	"go.opentelemetry.io/otel/trace/noop"
 	"golang.org/x/sync/errgroup"
@@ -36,6 +37,9 @@ type c02world struct {
 	hasEnc    bool // the server log also holds one secret-chat message (qts 1), seen only through the difference
 	encSeen   bool
 	early     int // C03: persisted pts seen while an entry at or below it was not yet delivered
+	jump      int  // C03 too-long mode: the first recovery request is answered differenceTooLong{pts: p0+jump}
+	failNext  bool // ... and the request after it fails with a transport error
+	calls     int
 }
 
 func (w *c02world) update(i int) tg.UpdateClass {
@@ -103,6 +107,13 @@ func (w *c02world) UpdatesGetState(ctx context.Context) (*tg.UpdatesState, error
 }
 
 func (w *c02world) UpdatesGetDifference(ctx context.Context, r *tg.UpdatesGetDifferenceRequest) (tg.UpdatesDifferenceClass, error) {
+	w.calls++
+	if w.jump > 0 && w.calls == 1 {
+		return &tg.UpdatesDifferenceTooLong{Pts: w.p0 + w.jump}, nil
+	}
+	if w.failNext && w.calls == 2 {
+		return nil, errors.New("verif: transport error")
+	}
 	var msgs []tg.MessageClass
 	var others []tg.UpdateClass
 	end := w.p0 + len(w.log)
